@@ -55,6 +55,7 @@ type SCIONClient struct {
 		cTxTime     ntp.Time64
 		cRxTime     ntp.Time64
 		sRxTime     ntp.Time64
+		pending     bool
 	}
 }
 
@@ -218,6 +219,16 @@ func (c *SCIONClient) measureClockOffsetSCION(ctx context.Context, mtrcs *scionC
 	} else {
 		ntpreq.TransmitTime = ntp.Time64FromTime(cTxTime0)
 	}
+	if interleavedReq && c.prev.pending {
+		// No response was accepted for the previous request: an interleaved
+		// request would repeat that request's timestamps, and a delayed
+		// response to it could not be told from the response to this one.
+		interleavedReq = false
+		ntpreq.OriginTime = ntp.Time64{}
+		ntpreq.ReceiveTime = ntp.Time64{}
+		ntpreq.TransmitTime = ntp.Time64FromTime(cTxTime0)
+	}
+	c.prev.pending = true
 	ntp.EncodePacket(&buf, &ntpreq)
 
 	var requestID []byte
@@ -603,6 +614,7 @@ func (c *SCIONClient) measureClockOffsetSCION(ctx context.Context, mtrcs *scionC
 			c.prev.cTxTime = ntp.Time64FromTime(cTxTime1)
 			c.prev.cRxTime = ntp.Time64FromTime(cRxTime)
 			c.prev.sRxTime = ntpresp.ReceiveTime
+			c.prev.pending = false
 		}
 
 		timestamp = cRxTime
